@@ -77,6 +77,77 @@ def _partition(run, s, tier):
         run.violation("%s:N%d:P%d" % (o["what"], o["N"], o["P"]), "%s slices %s for N=%d P=%d violate %s" % (o["what"], o["sl"], o["N"], o["P"], cl), o)
     run.add("partition", evaluations=len(obs), nontrivial=sum(1 for o in obs if o["P"] > 1), traces=len(obs), pairs=len(res["json"]))
     run.sample({"N": obs[100]["N"], "P": obs[100]["P"], "observed": obs[100]["what"], "slices": obs[100]["sl"]})
+    _partition_unbounded(run, s, tier, fn_dir, like)
+
+
+def _partition_unbounded(run, s, tier, fn_dir, like):
+    """Beyond TLC's bounds: PartitionProofs.tla (TLAPS) proves tiling of the closed forms for every N and P; the real split_idx /
+    get_functions are compared with those closed forms (evaluated by TLC, PartitionJudge 'closed') on large (N, P)."""
+    import random
+    from harness import tlaps
+    import esr.generation.utils as utils
+    import esr.fitting.test_all as ta
+    pr = tlaps.prove("PartitionProofs")
+    run.cov.setdefault("parts", {})["partition_proofs"] = {"tlaps_obligations": pr["obligations"], "tlaps_failed": pr["failed"], "tlaps_wall_s": pr["wall_s"]}
+    if not pr["ok"]:
+        run.violation("proof:PartitionProofs", "TLAPS no longer proves PartitionProofs.tla (%d of %d obligations failed): the slicing design does not tile for all N, P" % (
+            pr["failed"], pr["obligations"]))
+    if tier == "thorough":
+        # the proofs are about the definitions: a changed definition must make them fail
+        for f, old, new in [("PartitionDefs.tla", "(IF r < (n % p) THEN 1 ELSE 0)", "(IF r <= (n % p) THEN 1 ELSE 0)"),
+                            ("PartitionDefs.tla", "nLs' = nLs - 1", "nLs' = nLs - 2"),
+                            ("PartitionDefs.tla", "FitHi(n, r, p, k) == IF r = p - 1 THEN n ELSE", "FitHi(n, r, p, k) == IF r = p THEN n ELSE")]:
+            bad = tlaps.prove("PartitionProofs", patch={f: (old, new)})
+            if bad["ok"]:
+                raise RuntimeError("self-test: TLAPS still proves PartitionProofs with the definition changed (%s -> %s)" % (old, new))
+        run.cov["parts"]["partition_proofs"]["selftest_changed_definitions_rejected"] = 3
+    rng = random.Random(evidence.seed() + 14)
+    obs = []
+    pairs = [(rng.randrange(10 ** 3, 10 ** 6), rng.randrange(13, 4096)) for _ in range(40 if tier == "quick" else 400)]
+    pairs += [(rng.randrange(0, 300), rng.randrange(300, 3000)) for _ in range(10 if tier == "quick" else 100)]      # more ranks than functions
+    for N, P in pairs:
+        ranks = sorted(set([0, 1, P - 2, P - 1, N % P, max(0, N % P - 1)] + [rng.randrange(P) for _ in range(24)]))
+        rows = []
+        for r in ranks:
+            i = utils.split_idx(N, r, P)
+            if len(i):
+                rows.append([r, int(i[0]), int(i[-1]) + 1])
+            else:
+                lo = r * (N // P) + min(r, N % P)         # an empty slice carries no position: only its emptiness is observable
+                rows.append([r, lo, lo])
+                if lo != (r + 1) * (N // P) + min(r + 1, N % P):
+                    run.violation("split_idx_empty:N%d:P%d:r%d" % (N, P, r), "split_idx(%d, %d, %d) is empty but the section has elements" % (N, r, P), {"N": N, "P": P, "r": r})
+        obs.append({"id": len(obs), "kind": "closed", "what": "split_idx", "N": N, "P": P, "ranks": rows})
+    saved = (ta.rank, ta.size, ta.comm)
+    try:
+        ta.comm = _Comm()
+        fpairs = [(rng.randrange(50, 4000), rng.randrange(13, 600)) for _ in range(12 if tier == "quick" else 80)]
+        fpairs += [(rng.randrange(0, 40), rng.randrange(41, 400)) for _ in range(6 if tier == "quick" else 40)]
+        for N, P in fpairs:
+            with open(os.path.join(fn_dir, "compl_3", "unique_equations_3.txt"), "w") as f:
+                f.write("".join("f%d\n" % i for i in range(N)))
+            ranks = sorted(set([0, 1, P - 2, P - 1] + [rng.randrange(P) for _ in range(12)])) if tier == "quick" else list(range(P))
+            rows = []
+            for r in ranks:
+                ta.rank, ta.size = r, P
+                with contextlib.redirect_stdout(io.StringIO()):
+                    lst, a, b = ta.get_functions(3, like)
+                got = [int(x.strip()[1:]) for x in lst]
+                lo = min(a, N)
+                hi = max(lo, min(b, N))
+                if got != list(range(lo, hi)):
+                    run.violation("get_functions:N%d:P%d:r%d" % (N, P, r), "get_functions returned lines %s.. but reports the range [%d,%d)" % (got[:6], a, b), {"N": N, "P": P, "r": r})
+                rows.append([r, lo, hi])
+            obs.append({"id": len(obs), "kind": "closed", "what": "get_functions", "N": N, "P": P, "ranks": rows})
+    finally:
+        ta.rank, ta.size, ta.comm = saved
+    jres, failed = tlc.judge("PartitionJudge", obs)
+    run.add_tlc(jres, "partition_closed_form_judge")
+    for i, cl in sorted(failed.items())[:10]:
+        o = obs[i]
+        run.violation("%s_closed:N%d:P%d" % (o["what"], o["N"], o["P"]), "%s on N=%d P=%d: ranks %s are not the closed-form slices PartitionProofs.tla reasons about: %s" % (
+            o["what"], o["N"], o["P"], o["ranks"][:6], cl), o)
+    run.add("partition_closed_form", evaluations=sum(len(o["ranks"]) for o in obs), nontrivial=len(obs), traces=len(obs))
 
 
 def _startup(run, s, tier):
